@@ -17,7 +17,7 @@ pub struct C18 {
     pub corpus: std::sync::Arc<crate::corpus::Corpus>,
 }
 
-static PAIRS: crate::engine::PairTable = crate::engine::PairTable::new(&["owned", "borrowed", "sp_new", "sp_curve", "sp_curve_bufs", "sp_borrowed", "sp_duration", "sp_end_time", "sp_push", "sp_pop", "sp_set", "sp_settype", "sp_len", "sp_clear", "sp_clone", "sp_clone_from", "sp_swap", "sp_reverse"]);
+static PAIRS: crate::engine::PairTable = crate::engine::PairTable::new(&["owned", "borrowed", "sp_new", "sp_curve", "sp_curve_bufs", "sp_borrowed", "sp_duration", "sp_end_time", "sp_push", "sp_pop", "sp_set", "sp_settype", "sp_len", "sp_clear", "sp_clone", "sp_clone_from", "sp_swap", "sp_reverse", "sp_churn"]);
 
 fn mode_of(i: i64) -> GameMode {
     match i.rem_euclid(4) {
@@ -299,10 +299,45 @@ fn exec_decoded(plan: &Plan, st: &mut Stats) -> Result<(), Violation> {
         }
         if round == 0 {
             let mut out = Vec::new();
-            // the encoder walks the sliders with its own shared buffers and refreshes nothing it should not
-            for h in map.hit_objects.iter_mut() {
+            // a user edits the decoded map through the public API before saving it: control points moved (all, or only the
+            // first one — the file format cannot express that, the API can), slider moved, length changed
+            let nsl = map.hit_objects.iter().filter(|h| matches!(h.kind, HitObjectKind::Slider(_))).count();
+            for op in plan.ops.iter().filter(|o| o.k == "edit") {
+                if nsl == 0 {
+                    break;
+                }
+                let target = op.iarg(0).rem_euclid(nsl as i64) as usize;
+                let Some(sl) = map.hit_objects.iter_mut().filter_map(|h| if let HitObjectKind::Slider(ref mut s) = h.kind { Some(s) } else { None }).nth(target) else { continue };
+                st.inc("ops.decoded-map-edits");
+                let (dx, dy) = (op.arg(2) as f32, op.arg(3) as f32);
+                match op.iarg(1) {
+                    0 => {
+                        for c in sl.path.control_points_mut().iter_mut() {
+                            c.pos = Pos::new(c.pos.x + dx, c.pos.y + dy);
+                        }
+                    }
+                    1 => sl.pos = Pos::new(sl.pos.x + dx, sl.pos.y + dy),
+                    2 => {
+                        let d = sl.path.expected_dist().map(|d| d + f64::from(dx));
+                        *sl.path.expected_dist_mut() = d;
+                    }
+                    _ => {
+                        if let Some(c) = sl.path.control_points_mut().first_mut() {
+                            c.pos = Pos::new(c.pos.x + dx, c.pos.y + dy);
+                        }
+                    }
+                }
+            }
+            // the encoder walks the sliders with its own shared buffers and refreshes nothing it should not; the curves it
+            // meets are absent (keep 0), all cached (keep 1) or cached on every other slider (keep 2)
+            let keep = plan.get_or("keep", 0);
+            for (k, h) in map.hit_objects.iter_mut().enumerate() {
                 if let HitObjectKind::Slider(ref mut sl) = h.kind {
-                    sl.path.clear_curve();
+                    if keep == 0 || (keep == 2 && k % 2 == 1) {
+                        sl.path.clear_curve();
+                    } else {
+                        let _ = sl.path.curve();
+                    }
                 }
             }
             if map.encode(&mut out).is_err() {
@@ -413,6 +448,24 @@ impl Scenario for C18 {
                         let path = format!("{letter}|{}{seg2}", pts.join("|"));
                         text.push_str(&format!("{x},{y},{t},2,0,{path},{},{}\n", 1 + rng.below(3), *rng.pick(&["", "0", "50", "300.5", "2000"])));
                         t += rng.range(-200, 900);
+                        if rng.chance(1, 4) {
+                            // the same shape pasted somewhere else (every coordinate shifted)
+                            let (dx, dy) = (*rng.pick(&[64i64, -20, 7, 128]), *rng.pick(&[32i64, 10, -5, 0]));
+                            let shift = |s: &str| -> String {
+                                s.split('|')
+                                    .map(|tok| match tok.split_once(':') {
+                                        Some((a, b)) => match (a.parse::<i64>(), b.parse::<i64>()) {
+                                            (Ok(a), Ok(b)) => format!("{}:{}", a + dx, b + dy),
+                                            _ => tok.to_string(),
+                                        },
+                                        None => tok.to_string(),
+                                    })
+                                    .collect::<Vec<_>>()
+                                    .join("|")
+                            };
+                            text.push_str(&format!("{},{},{t},2,0,{},{},{}\n", x + dx, y + dy, shift(&path), 1 + rng.below(3), *rng.pick(&["", "0", "50", "120", "300.5"])));
+                            t += rng.range(0, 900);
+                        }
                         if rng.chance(1, 3) {
                             // copy-pasted slider: same shape, another (or no) pixel length, possibly next in start-time order
                             text.push_str(&format!("{x},{y},{t},2,0,{path},{},{}\n", 1 + rng.below(3), *rng.pick(&["", "0", "50", "75.25", "300.5", "2000", "0.0001"])));
@@ -422,12 +475,46 @@ impl Scenario for C18 {
                 }
             }
             p.data = text.into_bytes();
+            p.set("keep", rng.below(3) as i64);
+            if rng.chance(1, 3) {
+                for _ in 0..1 + rng.below(3) {
+                    p.ops.push(Op::new("edit", &[rng.below(64) as f64, rng.below(4) as f64, *rng.pick(&[16.0, -8.0, 0.5, 100.0, 0.0]), *rng.pick(&[-8.0, 16.0, 0.25, 0.0, -100.0])]));
+                }
+            }
             return p;
         }
         let mut p = Plan::new("C18", "interleaved-clients", seed, idx);
         let nl = 3 + rng.below(6);
+        let mut defs: Vec<Vec<f64>> = Vec::new();
         for i in 0..nl {
-            let l = if i == 0 && rng.chance(1, 2) { vec![] } else { gen_list(&mut rng) };
+            let l = if i == 0 && rng.chance(1, 2) {
+                vec![]
+            } else if i > 0 && rng.chance(1, 4) {
+                // the same shape somewhere else: an earlier list translated, mirrored or scaled (a result remembered per
+                // "shape" must not leak the other list's absolute coordinates)
+                let mut l = defs[rng.below(i)].clone();
+                let (dx, dy) = (*rng.pick(&[64.0, -20.0, 0.0, 0.5, 1000.0]), *rng.pick(&[32.0, 10.0, 0.0, -0.25, -300.0]));
+                // (no scaling of the far-out lists: their cost is bounded by generation, not by the code under test)
+                let far = l.chunks_exact(3).any(|c| c[1].abs() > 1e4 || c[2].abs() > 1e4);
+                let how = if far { rng.below(3) } else { rng.below(4) };
+                for c in l.chunks_exact_mut(3) {
+                    match how {
+                        0 | 1 => {
+                            c[1] += dx;
+                            c[2] += dy;
+                        }
+                        2 => c[1] = -c[1],
+                        _ => {
+                            c[1] *= 2.0;
+                            c[2] *= 2.0;
+                        }
+                    }
+                }
+                l
+            } else {
+                gen_list(&mut rng)
+            };
+            defs.push(l.clone());
             p.ops.push(Op { k: "def".into(), a: l });
         }
         let n = 1 + rng.below(24);
@@ -480,6 +567,13 @@ impl Scenario for C18 {
             }
             if rng.chance(1, 10) {
                 p.ops.push(Op::new(if rng.chance(1, 2) { "sp_clone" } else { "sp_clone_from" }, &[slot, rng.below(4) as f64]));
+            }
+            if rng.chance(1, 60) {
+                // fill the cache, then one real edit followed by n-1 mutable accesses that change nothing, n at the wrap
+                // points of 8- and 16-bit counters, then read through a cached API
+                p.ops.push(Op::new(*rng.pick(&["sp_curve", "sp_curve_bufs"]), &[slot]));
+                p.ops.push(Op::new("sp_churn", &[slot, *rng.pick(&[256.0, 65536.0, 65536.0, 255.0, 257.0, 65535.0, 65537.0, 512.0, 131072.0]), rng.below(3) as f64, rng.range(0, 512) as f64]));
+                p.ops.push(Op::new(*rng.pick(&["sp_curve", "sp_curve_bufs", "sp_borrowed", "sp_duration"]), &[slot, 1.0]));
             }
         }
         p
@@ -558,6 +652,47 @@ impl Scenario for C18 {
                                 return Err(Violation::new("C18/differs-from-fresh-buffers", "evaluation", format!("op #{i}: idx_of_dist({d}) differs between the owned and the borrowed view of the same curve")));
                             }
                         }
+                        // lookup histories: a warm owned curve (looked at before, in this order) must answer like a cold copy
+                        // and like the borrowed view. Distances: every stored cumulative length exactly, its neighbours,
+                        // midpoints; order scrambled by a counter derived from the op index (no PRNG at execution time).
+                        {
+                            st.inc("ops.lookup-histories");
+                            let ls = c.lengths();
+                            let mut ds: Vec<f64> = Vec::new();
+                            for (j, l) in ls.iter().enumerate().take(64) {
+                                ds.push(*l);
+                                ds.push(f64::from_bits(l.to_bits().wrapping_add(1)));
+                                if j > 0 {
+                                    ds.push((ls[j - 1] + l) / 2.0);
+                                }
+                            }
+                            ds.push(c.dist());
+                            ds.push(c.dist() * 0.75);
+                            let n = ds.len();
+                            let mut x = (i as u64).wrapping_mul(0x9E37_79B9_7F4A_7C15) | 1;
+                            for _ in 0..(2 * n).min(160).min(4 + 200_000 / c.path().len().max(1)) {
+                                x ^= x << 13;
+                                x ^= x >> 7;
+                                x ^= x << 17;
+                                let d = ds[(x % n as u64) as usize];
+                                if d.is_nan() {
+                                    continue;
+                                }
+                                let cold = c.to_owned_curve();
+                                let (a, b, cc) = (o.idx_of_dist(d), c.idx_of_dist(d), cold.idx_of_dist(d));
+                                if a != b || a != cc {
+                                    return Err(Violation::new("C18/differs-from-fresh-buffers", "evaluation", format!("op #{i}: idx_of_dist({d}) = {a} on an owned curve that answered other lookups before, {b} on the borrowed view, {cc} on a copy never looked at")));
+                                }
+                                let dist = c.dist();
+                                if dist > 0.0 && dist.is_finite() {
+                                    let pr = d / dist;
+                                    let (a, b, cc) = (o.position_at(pr), c.position_at(pr), cold.position_at(pr));
+                                    if (a.x.to_bits(), a.y.to_bits()) != (b.x.to_bits(), b.y.to_bits()) || (a.x.to_bits(), a.y.to_bits()) != (cc.x.to_bits(), cc.y.to_bits()) {
+                                        return Err(Violation::new("C18/differs-from-fresh-buffers", "evaluation", format!("op #{i}: position_at({pr}) = {a:?} on an owned curve with a lookup history, {b:?} on the borrowed view, {cc:?} on a cold copy")));
+                                    }
+                                }
+                            }
+                        }
                         let back = o.as_borrowed_curve();
                         // (bit-wise: a path may legitimately hold NaN coordinates, e.g. for an infinite requested length)
                         if snap(o.path(), o.lengths()) != snap(c.path(), c.lengths()) || o.dist().to_bits() != c.dist().to_bits() || snap(back.path(), back.lengths()) != snap(c.path(), c.lengths()) {
@@ -626,7 +761,7 @@ impl Scenario for C18 {
                     }
                     prev_kind = "cached";
                 }
-                k @ ("sp_curve" | "sp_curve_bufs" | "sp_borrowed" | "sp_duration" | "sp_end_time" | "sp_push" | "sp_pop" | "sp_set" | "sp_settype" | "sp_len" | "sp_clear" | "sp_swap" | "sp_reverse") => {
+                k @ ("sp_curve" | "sp_curve_bufs" | "sp_borrowed" | "sp_duration" | "sp_end_time" | "sp_push" | "sp_pop" | "sp_set" | "sp_settype" | "sp_len" | "sp_clear" | "sp_swap" | "sp_reverse" | "sp_churn") => {
                     let si = op.iarg(0).rem_euclid(4) as usize;
                     let Some(slot) = slots[si].as_mut() else { continue };
                     if !matches!(slot.obj.kind, HitObjectKind::Slider(_)) {
@@ -733,6 +868,39 @@ impl Scenario for C18 {
                             slider_mut(&mut slot.obj).path.control_points_mut().reverse();
                             slot.pts.reverse();
                         }
+                        "sp_churn" => {
+                            st.inc("ops.mutate-churn");
+                            let n = op.iarg(1).clamp(1, 200_000);
+                            let path = &mut slider_mut(&mut slot.obj).path;
+                            // the one real edit
+                            match op.iarg(2) {
+                                0 if !slot.pts.is_empty() => {
+                                    let j = slot.pts.len() - 1;
+                                    let pos = Pos::new(op.arg(3) as f32, slot.pts[j].pos.y + 1.0);
+                                    path.control_points_mut()[j].pos = pos;
+                                    slot.pts[j].pos = pos;
+                                }
+                                1 => {
+                                    let l = Some(op.arg(3) + 0.5);
+                                    *path.expected_dist_mut() = l;
+                                    slot.len = l;
+                                }
+                                _ => {
+                                    let pt = PathControlPoint { pos: Pos::new(op.arg(3) as f32, 7.0), path_type: None };
+                                    path.control_points_mut().push(pt);
+                                    slot.pts.push(pt);
+                                }
+                            }
+                            // ... and n-1 accesses through the mutable accessors that change nothing
+                            for r in 1..n {
+                                if r % 2 == 0 {
+                                    let _ = path.control_points_mut().len();
+                                } else {
+                                    let d = path.expected_dist();
+                                    *path.expected_dist_mut() = d;
+                                }
+                            }
+                        }
                         "sp_len" => {
                             st.inc("ops.mutate-length");
                             *slider_mut(&mut slot.obj).path.expected_dist_mut() = len_of(op.arg(1));
@@ -743,7 +911,7 @@ impl Scenario for C18 {
                             slider_mut(&mut slot.obj).path.clear_curve();
                         }
                     }
-                    if matches!(k, "sp_push" | "sp_pop" | "sp_set" | "sp_settype" | "sp_len" | "sp_swap" | "sp_reverse") && matches!(prev_kind, "cached") {
+                    if matches!(k, "sp_push" | "sp_pop" | "sp_set" | "sp_settype" | "sp_len" | "sp_swap" | "sp_reverse" | "sp_churn") && matches!(prev_kind, "cached") {
                         st.inc("probe.mutation-right-after-cache-fill");
                     }
                     if matches!(k, "sp_curve" | "sp_curve_bufs" | "sp_duration" | "sp_end_time") {
@@ -779,6 +947,9 @@ impl Scenario for C18 {
             "ops.hitobject-end_time_with_bufs",
             "ops.mutate-points",
             "ops.mutate-length",
+            "ops.mutate-churn",
+            "ops.lookup-histories",
+            "ops.decoded-map-edits",
             "ops.clear-cache",
             "ops.clone-slider",
             "fired.H1-borrowed-curve-dropped-unread",
